@@ -337,6 +337,19 @@ def check_pair(acc, pendulum, loc, ia, ib, use_global):
         ok = acceptable(d, comps, False, future, absolute)
         if ok and r not in ok:
             acc.mismatch("diff_for_humans", f"{loc}/{'global-locale/' if use_global else ''}phrase", case, r, sorted(ok))
+    # Interval.in_words() of the same pair (components from the independent decomposition, sign of the direction)
+    for iv_name, mk in (("b-a", lambda: b - a), ("a-b", lambda: a - b), ("diff", lambda: a.diff(b))):
+        case = {"kind": "pair", "loc": loc, "ia": ia, "ib": ib, "global": use_global, "interval": iv_name}
+        iv = mk()
+        sign = 1 if iv_name == "diff" else (1 if (ib >= ia) == (iv_name == "b-a") else -1)
+        r = basic(acc, "Interval.in_words", loc, case, lambda: iv.in_words(locale=loc))
+        if r is None:
+            continue
+        parts = list(zip(UNITS, [sign * c for c in comps]))
+        us = (max(ia, ib) - min(ia, ib)) % US
+        e = expected_words(d, parts, us)
+        if e is not None and r != e:
+            acc.mismatch("Interval.in_words", f"{loc}/phrase", case, r, e)
     # relative to now (now injected)
     case = {"kind": "pair", "loc": loc, "ia": ia, "ib": ib, "abs": False, "global": use_global, "now": True}
     orig = pendulum.DateTime.__dict__["now"]
